@@ -6,7 +6,9 @@ import HcipyVerif.Model.Elements
 /-!
 Line-protocol front end of the C06 model.
 
-* `C06 effects NAME` → `ok safe=B retIsInput=B retShares=B writes=a,b|-` : the static verdict of the
+* `C06 effects NAME` → `ok safe=B retIsInput=B retShares=B writes=a,b|- safeGrid=B safeStokes=B retSharesGrid=B` :
+  (`safeGrid`/`safeStokes`: the checker's verdict on `Effects.viewProg` — the program as it acts on the heap of
+  grid objects / Stokes vectors; `retSharesGrid`: does the result point to the input's grid object.) The static verdict of the
   checker on the named effect program of `Model/Elements.lean` and the observable footprint of
   running it (the footprint does not depend on the input value or on the meaning of the array
   operations; the driver runs it on a fixed input with a fixed interpretation).
@@ -131,7 +133,9 @@ def step (st : St) : List String → St × String
     | some p =>
       let o := call demoSem p demoIn
       let w := if o.writes.isEmpty then "-" else ",".intercalate (o.writes.map showAttr)
-      (st, s!"ok safe={showBool (safe p)} retIsInput={showBool o.retIsInput} retShares={showBool o.retSharesBuf} writes={w}")
+      let sg := match retSharesAttr demoSem .grid p demoIn with
+        | some b => showBool b | none => "-"
+      (st, s!"ok safe={showBool (safe p)} retIsInput={showBool o.retIsInput} retShares={showBool o.retSharesBuf} writes={w} safeGrid={showBool (safeAttr .grid p)} safeStokes={showBool (safeAttr .stokes p)} retSharesGrid={sg}")
     | none => (st, "bad-op")
   | ["internal", name] =>
     match HcipyVerif.Elements.internalByName name with
